@@ -379,6 +379,8 @@ def random_c20(digital_rf, root, rng, name):
     w.rf_write(rng.randint(1, cap + 1))
     old_rf = newr("rf")      # before the first metadata write; RF data partly still in the open tmp file
     stored = set()
+    known = set()
+    late_first = rng.random() < 0.4
     steps = rng.randint(8, 16)
     for _ in range(steps):
         r = rng.random()
@@ -392,11 +394,24 @@ def random_c20(digital_rf, root, rng, name):
                 if want_empty:
                     form = "list"
                 N = 1 if form == "single" else rng.choice([1, 2, 3])
-                if stored and rng.random() < 0.3:
+                if not stored and late_first:
+                    # the recording starts late: earlier periods (and their subdirectories) are filled in afterwards, when
+                    # the long-lived readers have already looked at the channel
+                    top = rng.choice(cfg.bound[len(cfg.bound) // 2:-1]) - 1
+                if stored and rng.random() < (0.6 if late_first else 0.3):
                     # C20 speaks of all interleavings of write calls: a call may also fill in indices below what is stored
-                    # (ascending within the call, nothing that exists)
+                    # (nothing that exists)
                     top = rng.randint(-1, max(stored) - 1)
+                    if late_first and rng.random() < 0.5:
+                        top = rng.randint(-1, max(-1, min(stored) - 1))       # below everything stored so far
                 idxs = [k for k in next_indices(rng, cfg, top, N) if k not in stored]
+                if len(idxs) >= 2 and rng.random() < 0.35:
+                    # the indices of one call in any order; often with the middle one in another file than the two ends
+                    far = [b for b in cfg.bound[:-1] if b > idxs[-1] and b not in stored]
+                    if far and len(idxs) == 2 and rng.random() < 0.6:
+                        idxs = [idxs[0], rng.choice(far[:2]), idxs[1]]
+                    else:
+                        rng.shuffle(idxs)
                 if idxs:
                     ev = w.write(form, idxs, make_data(rng, tpl, form, len(idxs), uniform, allow_empty=bool(stored),
                                                        force_empty=want_empty and rng.random() < 0.5))
@@ -409,13 +424,17 @@ def random_c20(digital_rf, root, rng, name):
         new_md, new_rf = newr("md"), newr("rf")
         mdr, rfr = [old_md, new_md], [old_rf, new_rf]
         if stored:
-            k = max(stored)
-            for rid in mdr:                                   # the sample just written must be visible to both
+            # the samples just written (wherever they lie: the newest one, or one filled in below) must be visible to both
+            fresh = sorted(stored - known)[:3] or [max(stored)]
+            known = set(stored)
+            for rid in mdr:
                 w.bounds(rid)
-                w.read(rid, k, k, [], "none")
+                for k in fresh:
+                    w.read(rid, k, k, [], "none")
                 w.latest(rid)
             for rid in rfr:
-                w.read(rid, k, k, [], rng.choice(["none", "ffill"]), api="rfmeta")
+                for k in fresh[:2]:
+                    w.read(rid, k, k, [], rng.choice(["none", "ffill"]), api="rfmeta")
         observe(w, rng, mdr, stored, tops, rng.randint(1, 3), uniform, rfreaders=rfr, every_reader=True)
         for rid in rfr:
             for what in rng.sample(["channels", "props", "bounds", "read", "blocks", "fileprops"], 3):
